@@ -84,6 +84,8 @@ impl PushInterpreter {
         let icache = instruction_set.cache();
         let mut step_counter = 0;
         let start = Instant::now();
+        #[cfg(feature = "verif")]
+        let start = crate::push::verif::VClock::new(start);
         loop {
             if step_counter > push_state.configuration.eval_push_limit {
                 return PushInterpreterState::StepLimitExceeded;
